@@ -228,6 +228,18 @@ func init() {
 	})
 }
 
+// holdCtx is a caller-side context whose Done() may take its time (it runs a harness hold
+// first). Everything else is the parent's.
+type holdCtx struct {
+	context.Context
+	hold func()
+}
+
+func (c *holdCtx) Done() <-chan struct{} {
+	c.hold()
+	return c.Context.Done()
+}
+
 type lifecycleEnv struct {
 	w     *world.World
 	log   *stores.Log
@@ -322,7 +334,7 @@ func runC05(rc *RunCtx, i int) {
 	var stopRequested, stopReturned atomic.Bool
 	var held atomic.Int32
 	hold := func() {
-		if i%3 != 0 || !stopRequested.Load() || held.Add(1) > 2 {
+		if i%3 != 0 || !stopRequested.Load() || held.Add(1) > 4 {
 			return
 		}
 		for t := 0; t < 240 && !stopReturned.Load(); t++ {
@@ -332,6 +344,10 @@ func runC05(rc *RunCtx, i int) {
 	}
 	pm.on("ingest.beforeSend", hold)
 	pm.on("flush.beforeSend", hold)
+	// The same hold at the public boundary, needing no hook: the caller's context is consulted
+	// (Done) when IngestRows/Flush set up their wait, i.e. after the stopped check and before the
+	// send lands. A context whose Done() is slow is a legal caller-side implementation.
+	holdingCtx := func(parent context.Context) context.Context { return &holdCtx{Context: parent, hold: hold} }
 
 	desc := map[string]any{"case": env.w.Case, "shape": shape, "engine": env.spec, "fault_p": pf, "max_buffered_time": maxBufTime.String()}
 	producers := r.Range(2, 24)
@@ -385,7 +401,7 @@ func runC05(rc *RunCtx, i int) {
 					// so it runs in its own goroutine and is checked for return
 					go func() {
 						ctx, cancel := context.WithTimeout(context.Background(), 2*time.Second)
-						err := e.Flush(ctx)
+						err := e.Flush(holdingCtx(ctx))
 						cancel()
 						o.mu.Lock()
 						o.RetTick = env.clock.Tick()
@@ -406,7 +422,7 @@ func runC05(rc *RunCtx, i int) {
 				led.makeChan(o, pl.ch)
 				ctx, cancel := context.WithTimeout(context.Background(), 1500*time.Millisecond)
 				o.CallTick = env.clock.Tick()
-				err := e.IngestRows(ctx, rows, o.ch)
+				err := e.IngestRows(holdingCtx(ctx), rows, o.ch)
 				o.RetTick = env.clock.Tick()
 				cancel()
 				if err != nil {
